@@ -275,6 +275,8 @@ def rule_dataset(ctx: Ctx) -> None:
 
 
 def run(ctx: Ctx) -> None:
+    from rules import generic as _G
+    ctx.run(_G.rule_arity, ("perception_eval.common.dataset", "perception_eval.common.dataset_utils"), "R-ARITY", 15)
     ctx.run(rule_object)
     ctx.run(rule_frame)
     ctx.run(rule_boxes_and_pose)
